@@ -67,6 +67,7 @@ MonInit(S) ==
     scancelled|-> {},
     bstate    |-> [b \in {} |-> ""],       \* batch -> pending/running/ended/killed
     completions |-> 0,                     \* transitions to complete in this epoch
+    regrouped |-> FALSE, gover |-> <<>>,   \* the groups' parameters were replaced by a resubmission (regroup events)
     summaries |-> 0,                       \* results.json writes in this epoch
     lastSummary |-> [res |-> <<>>, missing |-> <<>>, tally |-> <<0,0,0,0>>],
     rounds    |-> [p \in {} |-> [quiet |-> FALSE, nsb |-> 0, promoted |-> FALSE]],
@@ -436,7 +437,10 @@ OnSummary(S, m, e) ==
                    \A k \in 1..Len(m.prevSummary) : m.prevSummary[k][1] \notin m.rerun =>
                       \E x \in 1..Len(e.res) : SubSeq(e.res[x], 1, 5) = SubSeq(m.prevSummary[k], 1, 5))
       a13 == Check(a12, "UntouchedNotRerun", m.epoch > 0, \A j \in J \ m.rerun : m.launches[j] = 0)
-  IN [a13 EXCEPT !.summaries = @ + 1, !.lastSummary = [res |-> e.res, missing |-> e.missing, tally |-> e.tally]]
+      \* C05: the completion work (summary, teardown, reports, flag) is done once per completion: without faults nobody
+      \* writes a second summary in the same epoch (the role is held from the completion check to the flag)
+      a14 == Check(a13, "CompletionWorkOnce", FaultFree(m) /\ ~m.sqlie, m.summaries = 0)
+  IN [a14 EXCEPT !.summaries = @ + 1, !.lastSummary = [res |-> e.res, missing |-> e.missing, tally |-> e.tally]]
 
 \* one Cluster API operation by a handle (focused C10 runs): versions of the handle's copies and of the files when
 \* the operation got the lock, the exception it raised, whether any of the four files changed
@@ -511,7 +515,7 @@ OnEnd(S, m, e) ==
       m3 == Check(m2b, "DryRunSame", S.hasfirst, m.cfgseq = S.firstround)
   IN [m3 EXCEPT !.ended = TRUE]
 
-MonStep(S, m0, e) ==
+MonStepE(S, m0, e) ==
   LET m == [m0 EXCEPT !.pos = @ + 1] IN
   CASE e.e = "proc"      -> OnProc(S, m, e)
     [] e.e = "exit"      -> OnExit(S, m, e)
@@ -540,6 +544,13 @@ MonStep(S, m0, e) ==
     [] e.e = "end"       -> OnEnd(S, m, e)
     [] OTHER             -> m
 
+\* `resubmit-jobs -s FILE` replaces the groups' parameters (same group names): from then on "the group's parameters" are the
+\* new ones -- batch size / time cap, try-add-blocked, processes per node, HPC options and run options (C06, C07)
+Eff(S, m) == IF m.regrouped THEN [S EXCEPT !.groups = m.gover] ELSE S
+MonStep(S, m0, e) ==
+  IF e.e = "regroup" THEN [m0 EXCEPT !.pos = @ + 1, !.regrouped = TRUE, !.gover = e.groups]
+  ELSE MonStepE(Eff(S, m0), m0, e)
+
 RECURSIVE MonSteps(_, _, _)
 MonSteps(S, m, es) == IF es = <<>> THEN m ELSE MonSteps(S, MonStep(S, m, Head(es)), Tail(es))
 
@@ -556,7 +567,7 @@ ClausesOf(c) ==
                      "NotCanceledRuns", "FlaggedWaitsForCleanBlockers", "RerunCanceledIff"}
     [] c = "C05" -> {"QuiescentRoundProgress", "NoIdleLeftover", "CompleteHasAllResults", "SummaryBeforeFlag", "CompleteOnce",
                      "SummaryOnlyBeforeFlag", "NodeRoundAfterBatch", "CompleteSummaryHasAll",
-                     "NoSbatchAfterComplete", "CompletesAfterRecovery"}
+                     "NoSbatchAfterComplete", "CompletesAfterRecovery", "CompletionWorkOnce"}
     [] c = "C06" -> {"NodesBound", "ProcsBound"}
     [] c = "C07" -> {"BatchNonEmpty", "BatchJobsKnown", "OneGroup", "BatchSizeOrTime", "BlockedOnlyWithAllBlockers",
                      "HandoverCoversUnfinished", "GroupOptions", "DryRunNoSbatch", "DryRunNoLaunch", "DryRunSame"}
